@@ -198,6 +198,9 @@ impl<T: Qcow2IoOps> Qcow2Dev<T> {
         // from in-flight during discarding new cluster.
         //
         let mut cache_vec = Vec::new();
+        // the entries of `cache_vec`, to mark them dirty again if their
+        // write fails
+        let mut dirty_vec = Vec::new();
 
         log::info!("flush caches: count {}", v.len());
 
@@ -249,11 +252,24 @@ impl<T: Qcow2IoOps> Qcow2Dev<T> {
                     }
                     // holding this cache's read block until this flush is done
                     cache_vec.push(cache);
+                    dirty_vec.push(e);
                 }
             }
         }
 
-        futures::future::join_all(f_vec).await;
+        let zeroed = futures::future::join_all(f_vec).await;
+        if let Some(err) = zeroed.into_iter().find_map(|r| r.err()) {
+            // a new cluster could not be zeroed: nothing was written, keep the
+            // clusters new (not zeroed) and everything dirty for the next flush
+            for (_, mut locked_cls) in cluster_map {
+                *locked_cls = false;
+            }
+            for e in dirty_vec {
+                e.set_dirty(true);
+            }
+            self.mark_need_flush(true);
+            return Err(err);
+        }
 
         {
             let mut cls_map = self.new_cluster.write().await;
@@ -277,16 +293,23 @@ impl<T: Qcow2IoOps> Qcow2Dev<T> {
         }
 
         let res = futures::future::join_all(f_vec).await;
-        for r in res {
+        let mut failed = Ok(());
+        for (r, e) in res.into_iter().zip(dirty_vec) {
             if r.is_err() {
                 eprintln!("cache slice write failed {r:?}\n");
-                return r;
+                // this slice did not reach the disk: the next flush has to
+                // write it again
+                e.set_dirty(true);
+                self.mark_need_flush(true);
+                if failed.is_ok() {
+                    failed = r;
+                }
             }
         }
 
         //each cache's read lock drops here
 
-        Ok(())
+        failed
     }
 
     /// if the refblock cache for holding refcount block slice is empty
@@ -349,7 +372,11 @@ impl<T: Qcow2IoOps> Qcow2Dev<T> {
         while let Some(idx) = rt.pop_dirty_blk_idx(None) {
             let start = idx << self.info.block_size_shift;
             let size = 1 << self.info.block_size_shift;
-            self.flush_table(rt, start, size).await?
+            if let Err(e) = self.flush_table(rt, start, size).await {
+                // keep the block dirty for a later attempt
+                rt.set_dirty((idx as usize) << (self.info.block_size_shift - 3));
+                return Err(e);
+            }
         }
 
         Ok(())
@@ -374,11 +401,21 @@ impl<T: Qcow2IoOps> Qcow2Dev<T> {
             let start = key_fn((idx as u64) << bs_bits);
             let end = key_fn(((idx + 1) as u64) << bs_bits);
 
-            if self.flush_cache(cache, start, end).await? {
-                // order cache flush and the upper layer table
-                self.call_fsync(0, usize::MAX, 0).await?;
+            let res = async {
+                if self.flush_cache(cache, start, end).await? {
+                    // order cache flush and the upper layer table
+                    self.call_fsync(0, usize::MAX, 0).await?;
+                }
+                self.flush_table(rt, idx << bs_bits, 1 << bs_bits).await
             }
-            self.flush_table(rt, idx << bs_bits, 1 << bs_bits).await?;
+            .await;
+            if res.is_err() {
+                // the block did not reach the disk: keep it dirty (any entry
+                // index inside the block marks the block)
+                rt.set_dirty((idx as usize) << (bs_bits - 3));
+                self.mark_need_flush(true);
+            }
+            res?;
             Ok(false)
         } else {
             // flush cache without holding top table read lock
